@@ -273,3 +273,30 @@ Proof. reflexivity. Qed.
 
 Lemma foreign_graceful_goaway sid last : (sid <= last)%N -> foreign sid (CGoAway last).
 Proof. intros H. unfold foreign. cbn. destruct (N.leb_spec sid last); [reflexivity|lia]. Qed.
+
+(* ====================================================================== *)
+(* an HTTP/2 stream cut before END_STREAM is never delivered as complete  *)
+(* ====================================================================== *)
+
+Definition stream_cut (e : h2ev) : Prop :=
+  match e with H2ConnEnd | H2GoAwayClose | H2Rst _ => True | _ => False end.
+
+Lemma h2_pipe_cut fs k after : open_frames fs -> stream_cut k ->
+  snd (h2_pipe (h2_events fs false ++ k :: after)) <> H2Clean.
+Proof.
+  intros Ho Hk. unfold h2_events. rewrite app_nil_r, h2_pipe_open by assumption. cbn [snd].
+  destruct k; try contradiction; cbn; discriminate.
+Qed.
+
+(* Whatever DATA frames arrived (any number, any padding), with or without a declared length:
+   if the stream has not ended and the connection ends with a clean FIN, a GOAWAY + FIN, or the
+   stream is reset, the caller's read ends with an error - never with io.EOF. *)
+Theorem h2_cut_never_complete fs k after cl : open_frames fs -> stream_cut k ->
+  snd (h2_read cl false (h2_events fs false ++ k :: after)) <> H2Clean.
+Proof.
+  intros Ho Hk. pose proof (h2_pipe_cut fs k after Ho Hk) as P. unfold h2_read.
+  destruct (h2_pipe (h2_events fs false ++ k :: after)) as [d e]. cbn [snd] in P.
+  destruct cl as [n|]; [|exact P].
+  destruct (take_N n d) as [[t rest] missing]. destruct rest; [|cbn; discriminate].
+  destruct (missing =? 0)%N; cbn [snd]; [exact P|]. destruct e; try discriminate; try contradiction.
+Qed.
